@@ -165,7 +165,9 @@ class RungeKuttaIntegrator(TableauIntegrator, abc.ABC):
         self.initial_time = D.ar_numpy.copy(initial_time)
         self.initial_rhs = None
         
-        if self.final_rhs is not None:
+        if self.final_rhs is not None and self.final_time is not None and self.final_state is not None \
+                and D.ar_numpy.all(initial_time == self.final_time) and D.ar_numpy.all(initial_state == self.final_state):
+            # the cached end slope may only be reused when this call starts where the last accepted step ended
             self.initial_rhs = self.final_rhs
             if self.is_fsal:
                 self.stage_values[...,0] = self.final_rhs
@@ -224,6 +226,8 @@ class RungeKuttaIntegrator(TableauIntegrator, abc.ABC):
                     )
         
         self._requires_high_precision = False
+        self.final_time = initial_time + self.dTime
+        self.final_state = initial_state + self.dState
         
         return timestep, (self.dTime, self.dState)
         
